@@ -164,10 +164,13 @@ func (m Match) IsMatch(ctx context.Context, path string, e discovery.Entry) bool
 	if m.For != "" {
 		if e.Rule.AlertingRule != nil && e.Rule.AlertingRule.For != nil {
 			dm, _ := parseDurationMatch(m.For)
-			if dur, err := parseDuration(e.Rule.AlertingRule.For.Value); err == nil {
-				if !dm.isMatch(dur) {
-					return false
-				}
+			dur, err := parseDuration(e.Rule.AlertingRule.For.Value)
+			if err != nil {
+				// A value that is not a duration is neither longer nor shorter than anything.
+				return false
+			}
+			if !dm.isMatch(dur) {
+				return false
 			}
 		} else {
 			return false
@@ -177,10 +180,13 @@ func (m Match) IsMatch(ctx context.Context, path string, e discovery.Entry) bool
 	if m.KeepFiringFor != "" {
 		if e.Rule.AlertingRule != nil && e.Rule.AlertingRule.KeepFiringFor != nil {
 			dm, _ := parseDurationMatch(m.KeepFiringFor)
-			if dur, err := parseDuration(e.Rule.AlertingRule.KeepFiringFor.Value); err == nil {
-				if !dm.isMatch(dur) {
-					return false
-				}
+			dur, err := parseDuration(e.Rule.AlertingRule.KeepFiringFor.Value)
+			if err != nil {
+				// A value that is not a duration is neither longer nor shorter than anything.
+				return false
+			}
+			if !dm.isMatch(dur) {
+				return false
 			}
 		} else {
 			return false
